@@ -52,7 +52,7 @@ class Prog:
         self.name, self.files, self.backends, self.seeds, self.stdin, self.tags, self.note = name, files, backends, seeds, stdin, tags, note
 
 
-def diff_prog(pid, prog, timeout=300):
+def diff_prog(pid, prog, timeout=300, canon=None):
     """Build with go and llgo, run, compare. Returns dict(ref_cases, results: list of (config, diffs, crashes, build_error))."""
     d = workdir(pid, prog.name)
     src = os.path.join(d, "src")
@@ -92,7 +92,11 @@ def diff_prog(pid, prog, timeout=300):
             rc_cases = refs[seed][0]
             for cid in refs[seed][1]:
                 got = cases.get(cid)
-                if got != rc_cases[cid]:
+                same = got == rc_cases[cid]
+                if not same and canon and got is not None:
+                    # compare only what the property defines (canon maps an observation to its specified content)
+                    same = canon(got) == canon(rc_cases[cid])
+                if not same:
                     entry["diffs"].append((cid, rc_cases[cid], got, seed))
             for cid in order:
                 if cid not in rc_cases:
